@@ -165,6 +165,7 @@ func C15(p *engine.Prog, r *engine.Report) {
 	// ---------------- R5
 	c04R3(p, r)
 	// rename: R5 obligations were recorded under C04-R3 ids; keep as is (shared rule)
+	c15R7(p, r)
 }
 
 func c15R3(p *engine.Prog, r *engine.Report, sm *stateModel) {
@@ -430,4 +431,45 @@ func c15R4(p *engine.Prog, r *engine.Report) {
 		_ = n
 	}
 	r.Floor("C15-R6", 6, "2 cache-through reads + 4 read-modify-write helpers")
+}
+
+// c15R7: a sub-environment never reads a balance from the committed state itself: WasmEnv.getBalance
+// reaches State.GetBalance only for the root (parent == nil); every nested environment asks its
+// parent, so a pending debit anywhere up the call chain is seen at any depth.
+func c15R7(p *engine.Prog, r *engine.Report) {
+	f := mustFunc(p, r, "vm/wasm", "WasmEnv.getBalance")
+	if f == nil {
+		return
+	}
+	r.Fn(engine.FuncName(f))
+	g := guardsWhere(f, func(cond ssa.Value) (bool, bool, string) {
+		x, y, isEq, ok := eqCond(cond)
+		if !ok {
+			return false, false, ""
+		}
+		for _, pr := range [][2]ssa.Value{{x, y}, {y, x}} {
+			if k, isK := pr[1].(*ssa.Const); isK && k.IsNil() {
+				if _, fld, okF := engine.FieldOf(engine.Origin(pr[0])); okF && fld == "parent" {
+					return true, isEq, "parent == nil"
+				}
+			}
+		}
+		return false, false, ""
+	})
+	n := 0
+	for _, c := range callsTo(f, "core/state.StateDB.GetBalance") {
+		n++
+		r.Check(len(g) > 0 && engine.OnlyThroughPass(f, c.Block(), g), "C15-R7", "WasmEnv.getBalance|the committed balance is read only by the root environment", p.InstrPos(c), "behind parent == nil", "a nested environment can fall back to the committed balance without asking its whole parent chain: at depth three a grandchild does not see the grandparent's pending debit, starts from the stale balance and its Commit overwrites the debit — coins are created")
+	}
+	if n == 0 {
+		r.Und("C15-R7", "WasmEnv.getBalance|state read", p.Pos(f.Pos()), "State.GetBalance not called")
+	}
+	// the delegation goes through the parent's own accessor (not its raw cache)
+	del := false
+	for _, c := range callsTo(f, "vm/wasm.WasmEnv.getBalance") {
+		if _, fld, okF := engine.FieldOf(engine.Origin(engine.CallArgs(c)[0])); okF && fld == "parent" {
+			del = true
+		}
+	}
+	r.Check(del, "C15-R7", "WasmEnv.getBalance|a nested environment asks its parent's accessor", p.Pos(f.Pos()), "w.parent.getBalance(address)", "no recursive call on the parent: the lookup stops at the direct parent's cache")
 }
